@@ -9,7 +9,8 @@ Pipeline of one run (`zoo_pipeline`):
      P_C13_world_inv) and EMITS one reference line per (shape, presence, held).
   2. harness/gen/zoo.py turns (a seed-chosen sample of) the emitted shapes, plus shapes it
      composes itself (every arity 1..26 with all members reading / writing / default-providing
-     a resource of their own, kind rotations over 26 distinct resources, nestings to depth 3, wide
+     a resource of their own / calling a custom setup handler, derived structs with bare
+     type-parameter members, kind rotations over 26 distinct resources, nestings to depth 3, wide
      tuples/structs), into real Rust SystemData types: gen-out/zoo*_cases.rs, compiled into the
      `zoo*` binaries (up to 8 compilation units built in parallel).
   3. the binaries run every type: reads()/writes() (type and StaticAccessor of a real System),
@@ -53,9 +54,10 @@ class _Sub:
 
 # ------------------------------------------------------------------ 1. model checking + emission
 
-def mc_consts(nres, maxmem=0, outer=0, inner=0, arity=0, arity_from=1, held=False):
+def mc_consts(nres, maxmem=0, outer=0, inner=0, arity=0, arity_from=1, held=False, handlers=0):
+    """handlers: 0 no custom-SetupHandler leaves, 1 included, 2 only shapes containing one"""
     return {"NRes": nres, "MaxMem": maxmem, "MaxOuter": outer, "MaxInner": inner, "ArityFrom": arity_from,
-            "Arity": arity, "Held": "TRUE" if held else "FALSE"}
+            "Arity": arity, "Held": "TRUE" if held else "FALSE", "Handlers": handlers}
 
 
 def mc_configs(tier, light=False):
@@ -63,21 +65,25 @@ def mc_configs(tier, light=False):
     if light:       # C13 stage: setup does not depend on borrows; depth 1/2 and the arity table suffice
         return [
             ("d1", mc_consts(2, maxmem=3) if tier == "quick" else mc_consts(3, maxmem=3), "mc"),
-            ("arity", mc_consts(1, arity=26), "arity"),
+            ("hnd", mc_consts(2, maxmem=2, outer=2, inner=1, handlers=2), "mc"),
+            ("arity", mc_consts(1, arity=26, handlers=1), "arity"),
         ]
     if tier == "quick":
         return [
             ("d1", mc_consts(2, maxmem=3), "mc"),                       # leaves + depth 1, <= 3 members
             ("d2", mc_consts(2, outer=2, inner=1), "mc"),               # depth 2
             ("held", mc_consts(2, maxmem=2, held=True), "mc"),          # somebody else holds a borrow
-            ("arity", mc_consts(1, arity=26), "arity"),                 # every arity x position x kind
+            ("hnd", mc_consts(2, maxmem=2, outer=2, inner=1, handlers=2), "mc"),   # custom setup handlers, depth 1 and 2
+            ("arity", mc_consts(1, arity=26, handlers=1), "arity"),     # every arity x position x kind
         ]
     return [
         ("d1", mc_consts(3, maxmem=3), "mc"),
         ("d2", mc_consts(3, outer=2, inner=1), "mc"),
         ("held", mc_consts(2, maxmem=3, held=True), "mc"),
         ("held3", mc_consts(3, maxmem=2, held=True), "mc"),
-        ("arity", mc_consts(2, arity=26), "arity"),
+        ("hnd", mc_consts(2, maxmem=3, outer=2, inner=1, handlers=2), "mc"),
+        ("hnd3", mc_consts(3, maxmem=2, handlers=2), "mc"),
+        ("arity", mc_consts(2, arity=26, handlers=1), "arity"),
     ]
 
 
@@ -111,9 +117,9 @@ def run_mc(ctx, tier, workers_each=4, light=False):
 
 def budgets(tier, scale=1.0):
     if tier == "quick":
-        b = {"n_mc": 900, "n_arity": 500, "n_rot": 52, "n_deep": 300, "n_wide": 250, "units": 8}
+        b = {"n_mc": 900, "n_arity": 500, "n_rot": 52, "n_deep": 280, "n_wide": 220, "units": 8}
     else:
-        b = {"n_mc": 9000, "n_arity": 0, "n_rot": 208, "n_deep": 3000, "n_wide": 2500, "units": 8}   # n_arity 0 = whole table
+        b = {"n_mc": 9000, "n_arity": 0, "n_rot": 260, "n_deep": 3000, "n_wide": 2500, "units": 8}   # n_arity 0 = whole table
     if scale != 1.0:
         for k in ("n_mc", "n_arity", "n_rot", "n_deep", "n_wide"):
             b[k] = int(b[k] * scale) if b[k] else b[k]
@@ -243,6 +249,8 @@ def zoo_pipeline(ctx, invariants, tier=None, scale=1.0, what="", light=False):
         "types": stats["types"], "compilation_units": stats["units"], "by_origin": stats["by_origin"],
         "derived_structs": stats["derived_structs"],
         "structs_without_lifetime_turned_into_tuples": stats["structs_without_lifetime_turned_into_tuples"],
+        "members_spelled_as_bare_type_parameter": stats["members_spelled_as_bare_type_parameter"],
+        "custom_handler_leaves": stats["custom_handler_leaves"],
         "arities_present": stats["arities_present"], "arity_positions_covered": stats["arity_positions_covered"],
         "max_depth": stats["max_depth"], "tlc_emitted": stats["emitted"],
         "events": tot.get("events", 0), "fetch_runs": tot.get("fetch_runs", 0), "setup_runs": tot.get("setup_runs", 0),
@@ -356,6 +364,8 @@ def corruption_demo(ctx, scale=0.05):
          lambda: edit(first(lambda e: e["ev"] == "exec" and e["created"]), lambda e: e["w1"].__setitem__(e["created"][0] - 1, 0))),
         ("exec: a cell still exclusively borrowed after the closure returned", "InvC06borrow",
          lambda: edit(first(lambda e: e["ev"] == "exec" and 0 in e["after"]), lambda e: e["after"].__setitem__(e["after"].index(0), 2))),
+        ("setup: a custom setup handler's call is missing", "InvC06setup",
+         lambda: edit(first(lambda e: e["ev"] == "setup" and e["calls"]), lambda e: e["calls"].pop())),
         ("setup: Default::default() call sequence loses its last element", "InvC06setup",
          lambda: edit(first(lambda e: e["ev"] == "setup" and e["created"]), lambda e: e["created"].pop())),
     ]
